@@ -1,8 +1,8 @@
 """C18 — colour down-conversion stays in gamut, is idempotent and picks the nearest entry.
 
 Correspondence: Lean model (Model/Color.lean over the palettes translated by harness/gen/palettes.py)
-vs rich.color.Color.downgrade / get_ansi_codes / get_truecolor and rich.palette.Palette.match /
-__getitem__, in-process.  Direct evaluation (DESIGN 3d): the executable statements of the theorems in
+vs rich.color.Color.downgrade / get_ansi_codes / get_truecolor (default and custom TerminalTheme objects),
+rich.palette.Palette.match / __getitem__, ColorTriplet.hex, parse_rgb_hex and blend_rgb, in-process.  Direct evaluation (DESIGN 3d): the executable statements of the theorems in
 Props/C18.lean on rich's own outputs, with the oracle of harness/lib_color.py (independent of the model).
 """
 import itertools
@@ -446,7 +446,9 @@ MANIFEST = {
     "conditions (sizes 16/16/256, components <= 255) are re-proved by decide +kernel on the tables translated from rich/_palettes.py on every run. "
     "Tie: quick = all 32,896 (max,min) channel pairs (float facts directly and through Color.downgrade in every channel arrangement), all 256 "
     "channel values, all 256 numbers x 3 indexed types + default + ill-formed colours x 4 systems x fg/bg, 30k random RGB, ~85k colours at "
-    "palette decision boundaries / exact ties, ~840k compared cases; thorough = additionally all 16,777,216 RGB x {standard, 256, windows} "
+    "palette decision boundaries / exact ties, 120 seeded custom TerminalThemes x 38 probe colours x fg/bg, every two-character ASCII string in a "
+    "component position of parse_rgb_hex, blend_rgb at cross_fade 1/2 on all 65,536 channel pairs + 8k dyadic cross-fades, ~780k compared cases "
+    "(781,218 in the committed quick run, seed 2) and about as many direct evaluations (incl. the documented 256-colour mapping, lib_color.doc256); thorough = additionally all 16,777,216 RGB x {standard, 256, windows} "
     "through the function behind Color.downgrade's lru_cache (getattr(f, '__wrapped__', f): no dependence on the attribute) in 16 processes, each also evaluated against an independent integer oracle.",
     "note": "Partial where the Python runtime carries the truth: c/255.0, colorsys.rgb_to_hls and round() are modelled by exact rational arithmetic "
     "plus a 9-entry exception list for the double-precision saturation test `s < 0.1` (all nine are exact ties, sat_exceptions_are_ties); the "
@@ -457,6 +459,6 @@ MANIFEST = {
     "components above 255 answer `unmodelled`. One genuine defect found in rich 9.10.0 as found: downgrade(STANDARD) renumbered 16-colour WINDOWS / EIGHT_BIT(<16) "
     "colours (8->7, 9->1, 10->2, 12->4); repaired in /repo by fix 2cec9e1 (= pending_fixes/C18-downgrade-standard-keeps-16-colour-index.diff), "
     "STD_VIA_PALETTE holds the repaired value 0; a regression would print VIOLATION at site downgrade:representable (slug "
-    "downgrade-standard-renumbers-16-colour-index).",
+    "downgrade-standard-renumbers-16-colour-index). known_findings.txt has no `known:` line for C18: no KNOWN-FINDING line is printed.",
     "design_ref": "DESIGN.md section 7, C18; section 5 (IEEE doubles in Color.downgrade)",
 }
